@@ -453,6 +453,9 @@ pub fn plan_chunk_sizes_from(plan: &[PStep], start_idx: usize, n: u64, cap: usiz
 pub struct ReqSpec {
     pub method: String,
     pub headers: Vec<(String, Bs)>,
+    /// 0 the `http` crate's default (HTTP/1.1), 1 HTTP/1.0, 2 HTTP/0.9, 3 HTTP/2, 4 HTTP/3
+    #[serde(default)]
+    pub version: u8,
 }
 
 impl ReqSpec {
@@ -460,6 +463,7 @@ impl ReqSpec {
         ReqSpec {
             method: "GET".into(),
             headers: vec![],
+            version: 0,
         }
     }
     pub fn with(mut self, name: &str, v: impl AsRef<[u8]>) -> ReqSpec {
@@ -489,11 +493,18 @@ impl ReqSpec {
                 .filter(|(k, _)| !names.iter().any(|n| k.eq_ignore_ascii_case(n)))
                 .cloned()
                 .collect(),
+            version: self.version,
         }
     }
     pub fn build(&self) -> Option<http::Request<()>> {
         let m = http::Method::from_bytes(self.method.as_bytes()).ok()?;
-        let mut b = http::Request::builder().method(m).uri("/");
+        let mut b = http::Request::builder().method(m).uri("/").version(match self.version {
+            1 => http::Version::HTTP_10,
+            2 => http::Version::HTTP_09,
+            3 => http::Version::HTTP_2,
+            4 => http::Version::HTTP_3,
+            _ => http::Version::HTTP_11,
+        });
         for (k, v) in &self.headers {
             let k = HeaderName::from_bytes(k.as_bytes()).ok()?;
             let v = HeaderValue::from_bytes(&v.0).ok()?;
